@@ -367,6 +367,25 @@ except Exception as e: bad.append(f"after defining Later: {{type(e).__name__}}: 
 try:
     f(1); bad.append("f(1) accepted although 1 is not a Later")
 except BeartypeException: pass
+# a name that IS defined but is not (yet) a hint: the failure is not remembered either, and is the same failure each time
+import types
+m = types.ModuleType("c14_placeholder_mod"); sys.modules[m.__name__] = m
+m.Thing = 0xBEEF
+def mk():
+    @beartype
+    def g(x: "c14_placeholder_mod.Thing") -> None: return None
+    return g
+g_early, g_late = mk(), mk()
+seen = []
+for attempt in range(2):
+    try: g_early(1); seen.append("accepted")
+    except BeartypeException as e: seen.append(type(e).__name__)
+if len(set(seen)) != 1: bad.append(f"the same failing query answered differently: {{seen}}")
+class Thing: pass
+m.Thing = Thing
+for name, g in (("queried before the rebinding", g_early), ("never queried", g_late)):
+    try: g(Thing())
+    except Exception as e: bad.append(f"{{name}}: {{type(e).__name__}} after the name was bound to a class")
 print(bad); sys.exit(1 if bad else 0)
 '''
     p = subprocess.run([sys.executable, '-c', src], capture_output=True, text=True, timeout=120)
@@ -408,7 +427,7 @@ def fwdref_cache(rep, prefix='C14'):
         def m_fresh(tag): return lambda ex, s, f, a, kw, w: [(s, VObj(M.fresh(tag)))]
         def m_bool(tag): return lambda ex, s, f, a, kw, w: [(s, VBool(M.fresh(tag, z3.BoolSort())))]
         cm = {getattr(mod, getname): m_get, getattr(mod, storename): m_store, getattr(mod, validname): m_valid, getattr(mod, diename): m_die, mod._make_ref_proxy_exception_prefix: m_fresh('prefix')}
-        if uncachename: cm[getattr(mod, uncachename)] = m_unc
+        if uncachename and hasattr(mod, uncachename): cm[getattr(mod, uncachename)] = m_unc      # absent helper: nothing can undo a store
         for nm in ('resolve_hint_pep484749_ref_object', '_resolve_hint_pep484_ref_str', 'get_hint_pep484585_generic_unsubbed_type'):
             if hasattr(mod, nm): cm[getattr(mod, nm)] = m_fresh(nm)
         if hasattr(mod, 'is_hint_pep484585_generic'): cm[mod.is_hint_pep484585_generic] = m_bool('is_generic')
